@@ -211,6 +211,34 @@ class Census:
                     {"cond": pp(cond), "ops": [pp(o) for o in ops],
                      "facts": sorted(_ppf(f) for f in facts)[:40], "inherited": [repr(x) for x in assume]})
 
+    def guard_refuted(self, an, cs):
+        """a panic call (the failure arm of an `assert!` / `debug_assert!`) every edge into which is taken only when a comparison
+        has a value the order reasoning refutes: the assertion always holds, the call is not reachable"""
+        pv = Prover(an)
+        edges = [(p, cs.block) for p in an.preds[cs.block] if (p, cs.block) in an.feasible]
+        if not edges:
+            return None
+        n = 0
+        for p, b in edges:
+            before, after = an.entry[p].facts, an.out_states[(p, b)].facts
+            for _ in range(8):       # through empty forwarding blocks up to the branch that decided
+                ups = [q for q in an.preds[p] if (q, p) in an.feasible]
+                if after - before or len(ups) != 1:
+                    break
+                p, b = ups[0], p
+                before, after = an.entry[p].facts, an.out_states[(p, b)].facts
+            refuted = False
+            for f in after - before:
+                if f[0] in ("true", "false") and isinstance(f[1], Term) and f[1].op in ("bin", "un"):
+                    tv = pv.decide(f[1], before)
+                    if tv is not None and tv != (f[0] == "true"):
+                        refuted = True
+                        break
+            if not refuted:
+                return None
+            n += 1
+        return "asserted condition proven: each of the %d edges into the failure arm contradicts the order facts established before it" % n
+
     def discharge_at_call_sites(self, cfn, a):
         from .engine import State
         F = self.F
@@ -340,6 +368,7 @@ class Census:
         if cls == PANIC:
             self.counts["panic-call"] += 1
             why = self.extra_panic(fn, an, cs) if self.extra_panic else None
+            why = why or self.guard_refuted(an, cs)
             if why:
                 rep.ok(rule, self.key(fn, "panic-call", name), where, why)
                 return
